@@ -424,7 +424,7 @@ func genPrioRealScenario(rng *rand.Rand, vers []string, ctl bool) PrioRealScenar
 	// with control calls every subset of the registrable priorities must be non-fatal for H
 	mode := map[bool]string{true: "addrm", false: "general"}[ctl && len(vers) == 1 && vers[0] == "v1"]
 	g := genPrioScenario(rng, prioGen{Vers: vers, Dividers: allDividers, Mode: mode, MaxH: 32})
-	for g.H > 64 {
+	for g.H > 64 || len(g.Inputs) == 0 {
 		g = genPrioScenario(rng, prioGen{Vers: vers, Dividers: allDividers, Mode: mode, MaxH: 32})
 	}
 	sc := PrioRealScenario{Ver: g.Ver, Divider: g.Divider, DivSeed: g.DivSeed, H: g.H, Seed: rng.Uint64()}
